@@ -145,7 +145,9 @@ func monC02(c *fw.Ctx, e *exec, stratum string, hostile bool) {
 			return
 		}
 		for _, n := range []string{p.Src, p.Dst} {
-			if n == "" || n == "<kept>" || !model.ValidAccountName(n) {
+			// (the property names the empty name and the kept marker; whether other spellings are
+			// acceptable account names is not for this monitor to decide)
+			if n == "" || n == "<kept>" {
 				c.Violation("bad-account-name", fmt.Sprintf("posting #%d %s names %q", i, p, n), e.input())
 				return
 			}
